@@ -957,12 +957,6 @@ def check_histories(ctx: Any, cats: Iterable[str], mode: str, exhaustive_len: in
     finally:
         if own_clock:
             clock.uninstall()
-        # platform workaround: pyarrow worker threads that are still winding down when the interpreter
-        # finalises make the process abort ("terminate called without an active exception"); give
-        # them a moment after the last scan
-        import time as _time
-
-        _time.sleep(0.15)
     ctx.count_traces(len(todo))
     ctx.cov[f"histories_replayed_{mode}"] = len(todo)
     ctx.cov[f"steps_replayed_{mode}"] = steps
